@@ -59,7 +59,6 @@ pub fn install_pool_panic_hook() {
 pub struct GPool {
     pool: rayon::ThreadPool,
     tag: u64,
-    pub t: usize,
 }
 
 impl GPool {
@@ -70,7 +69,7 @@ impl GPool {
             .start_handler(move |_| TAG.with(|c| c.set(tag)))
             .build()
             .expect("rayon pool");
-        GPool { pool, tag, t }
+        GPool { pool, tag }
     }
 
     /// `rayon::current_num_threads()` as the subject will see it.
@@ -101,10 +100,11 @@ impl Drop for GPool {
 
 pub const POOLS_ALL: [usize; 6] = [1, 2, 3, 5, 8, 16];
 
-/// Outer worker count for cases that each own a rayon pool of `t` threads (16 cores).
-pub fn outer_workers(t: usize) -> usize {
-    (16 / t).max(1)
-}
+/// Outer worker count for groups whose cases each own a rayon pool of 1..=16 (32) threads. Most
+/// cases keep one or two of their pool's threads busy (short inputs, serial entry points), so 8
+/// outer workers fill a 16-core machine without much oversubscription; the pool size the subject
+/// sees is exactly the requested one whatever the outer load.
+pub const MIXED_POOL_WORKERS: usize = 8;
 
 pub fn fhex<F: PrimeField>(f: &F) -> String {
     // canonical little-endian representation, printed as a big-endian hex number
